@@ -197,6 +197,8 @@ pub fn order_sensitive(f: &mut dyn FnMut(G)) {
         E::Word(vec![E::lit("x="), E::Alt(vec![E::lit("a"), E::lit("b")])]),
         E::Word(vec![E::lit("y="), E::Alt(vec![E::lit("c"), E::lit("d")])]),
         E::Alt(vec![E::lit("p"), E::lit("q")]),
+        // a body that starts with `:` / `=` (right after the definition operator)
+        E::Alt(vec![E::lit(":x"), E::lit("=y")]),
     ];
     let x = || E::r("SRC");
     let y = || E::r("DST");
@@ -213,6 +215,13 @@ pub fn order_sensitive(f: &mut dyn FnMut(G)) {
         E::Fb(vec![y(), x(), y()]),
         E::Seq(vec![x(), y(), x()]),
     ];
+    // a redefined built-in name referenced from the call and from another definition: the
+    // override must not depend on where the definitions stand
+    for builtin in ["PATH", "DIRECTORY"] {
+        let b = || E::r(builtin);
+        f(G { stmts: vec![Stmt::Call { name: CMD.into(), expr: E::Alt(vec![E::Seq(vec![E::lit("--file"), E::r("F")]), b()]) }, def("F", E::Seq(vec![E::lit("x"), b()])), def(builtin, E::cmd("echo mine"))] });
+        f(G { stmts: vec![def(builtin, E::cmd("echo mine")), Stmt::Call { name: CMD.into(), expr: E::r("A") }, def("A", E::Alt(vec![E::lit("a"), E::r("B")])), def("B", E::Word(vec![E::lit("k="), b()]))] });
+    }
     for m in &mains {
         for b1 in &bodies {
             for b2 in &bodies {
